@@ -185,6 +185,14 @@ func (t *Table) Format(w io.Writer) error {
 				spanCols = append(spanCols, col)
 			}
 		}
+		if len(spanCols) == 0 {
+			// Every column under this cell is a shrink column.
+			// The cell still has to fit, so let the last one
+			// grow.
+			last := cell.col + cell.span - 1
+			w += ws[last]
+			spanCols = append(spanCols, last)
+		}
 		// Process the wider columns first.
 		sort.Slice(spanCols, func(i, j int) bool {
 			return ws[spanCols[i]] > ws[spanCols[j]]
